@@ -432,6 +432,15 @@ type e2eRecords struct {
 	queries []record
 	openEnd []record
 	sorts   []record
+	// queries whose term-range walk cannot finish: (case, integer bounds)
+	blowups []blowupCase
+	skipped int // walk too long for in-process execution but not hopeless: not executed
+}
+
+type blowupCase struct {
+	cs     caseSpec
+	mn, mx int64
+	walk   string
 }
 
 func buildE2E(c *core.Ctx) (*e2eRecords, error) {
@@ -524,6 +533,37 @@ func buildE2E(c *core.Ctx) (*e2eRecords, error) {
 			}
 		}
 	}
+	// canonical members of the open finding "range enumeration blow-up": always present
+	two, below2 := math.Float64bits(2), math.Float64bits(math.Nextafter(2, 0))
+	for _, t := range tasks {
+		if t.eng != "scorch" {
+			continue
+		}
+		switch t.cp.Name {
+		case "num-single":
+			jobs = append(jobs, qjob{t: t, q: &querySpec{Eng: t.eng, HasMin: true, HasMax: true, Min: below2, Max: two, IncMin: 2, IncMax: 2}})
+		case "date-core":
+			jobs = append(jobs, qjob{t: t, q: &querySpec{Eng: t.eng, HasMin: true, HasMax: true, Min: 0x0FFFFFFFFFFFFFFF, Max: 0x1000000000000000, IncMin: 2, IncMax: 2}})
+		}
+	}
+	// schedule by the length of the term-range walk the real splitter implies
+	kept := jobs[:0]
+	for _, j := range jobs {
+		if j.q != nil {
+			mn, mx := queryIntBounds(j.t.cp, *j.q)
+			w := walkLength(mn, mx)
+			if w.Cmp(walkInProcess) > 0 {
+				if w.Cmp(walkHopeless) >= 0 && j.t.eng == "scorch" {
+					out.blowups = append(out.blowups, blowupCase{cs: caseSpec{Kind: "query", Corpus: j.t.cp, Query: j.q}, mn: mn, mx: mx, walk: w.String()})
+				} else {
+					out.skipped++
+				}
+				continue
+			}
+		}
+		kept = append(kept, j)
+	}
+	jobs = kept
 	recs := make([]record, len(jobs))
 	errs := make([]error, len(jobs))
 	var wg sync.WaitGroup
